@@ -102,7 +102,7 @@ def getMinMax {α} (gt : α → α → Bool) (nan : α → Bool) : List α → O
 structure MinMax (α : Type) where
   min : Option α
   max : Option α
-deriving Repr
+deriving Repr, DecidableEq
 
 def MinMax.empty {α} : MinMax α := ⟨none, none⟩
 
